@@ -105,12 +105,14 @@ def _shuffle(ctx, cfg):
         rint = z3.Function("randint_%d" % vc.n_fresh, z3.IntSort(), z3.IntSort())
         calls = {"randperm": 0, "randint": []}
 
-        def perm_at(x):
-            """randperm contract, instantiated at the index actually read (keeps the queries quantifier-free):
-            perm maps [0,N) into [0,N) and has a left inverse there (it is a bijection of [0,N))."""
-            x = A._z(x)
-            vc.pc.append(z3.Implies(z3.And(x >= 0, x < N.e), z3.And(perm(x) >= 0, perm(x) < N.e, inv(perm(x)) == x)))
-            return SymInt(perm(x))
+        def mk_perm(pf, pinv):
+            def perm_at(x):
+                """randperm contract, instantiated at the index actually read (keeps the queries quantifier-free):
+                the function maps [0,N) into [0,N) and has a left inverse there (it is a bijection of [0,N))."""
+                x = A._z(x)
+                vc.pc.append(z3.Implies(z3.And(x >= 0, x < N.e), z3.And(pf(x) >= 0, pf(x) < N.e, pinv(pf(x)) == x)))
+                return SymInt(pf(x))
+            return perm_at
 
         def rint_at(x, high):
             x = A._z(x)
@@ -124,7 +126,13 @@ def _shuffle(ctx, cfg):
             def randperm(n):
                 calls["randperm"] += 1
                 vc.check("randperm/over the number of training rows", n == N)
-                p = Idx(N, perm_at, "perm")
+                # every call draws a fresh, independent permutation
+                if calls["randperm"] == 1:
+                    pf, pinv = perm, inv
+                else:
+                    pf = z3.Function("perm%d_%d" % (calls["randperm"], vc.n_fresh), z3.IntSort(), z3.IntSort())
+                    pinv = z3.Function("perminv%d_%d" % (calls["randperm"], vc.n_fresh), z3.IntSort(), z3.IntSort())
+                p = Idx(N, mk_perm(pf, pinv), "perm")
                 p.numpy = lambda: p
                 p.cpu = lambda: p
                 return p
